@@ -234,9 +234,10 @@ def reset_fresh():
 
 
 class Frame:
-    __slots__ = ("fid", "body", "locals", "block", "ret_k", "depth", "callsite", "tysubst")
+    __slots__ = ("fid", "body", "locals", "block", "ret_k", "depth", "callsite", "tysubst", "dirty")
 
-    def __init__(self, fid, body, locals_, block, ret_k, depth, callsite, tysubst=None):
+    def __init__(self, fid, body, locals_, block, ret_k, depth, callsite, tysubst=None, dirty=()):
+        self.dirty = dirty
         self.fid = fid
         self.body = body
         self.locals = locals_
@@ -248,7 +249,7 @@ class Frame:
 
     def copy(self):
         return Frame(self.fid, self.body, dict(self.locals), self.block, self.ret_k, self.depth, self.callsite,
-                     self.tysubst)
+                     self.tysubst, self.dirty)
 
 
 class State:
